@@ -98,6 +98,27 @@ fn clone_case(rep: &Report, idx: usize, sc: &Scenario, verify_header: bool) -> O
         let mut b = b;
         b.out_path = odir.join("out.bin");
         cc::prepare_output(&b, sc);
+        // How a seed is named must not change how it is opened: one clone in four gets its
+        // first seed through a named pipe (fed from a thread), another through a symlink.
+        let mut fifo: Option<scn::FifoFeeder> = None;
+        let mut alt_seed0: Option<PathBuf> = None;
+        if let Some(first) = b.seed_paths.first() {
+            match idx % 4 {
+                1 => {
+                    let data = std::fs::read(first).unwrap_or_default();
+                    fifo = scn::FifoFeeder::start(dir.join("seed0.fifo"), data);
+                    alt_seed0 = fifo.as_ref().map(|f| f.path.clone());
+                }
+                3 => {
+                    let l = dir.join("seed0.link");
+                    let _ = std::fs::remove_file(&l);
+                    if std::os::unix::fs::symlink(first, &l).is_ok() {
+                        alt_seed0 = Some(l);
+                    }
+                }
+                _ => {}
+            }
+        }
         let before_in = listing(&dir);
         let before_out = listing(&odir);
         let before_inputs: Vec<(PathBuf, Vec<u8>)> = b.seed_paths.iter().chain([&b.arch.path]).map(|pth| (pth.clone(), std::fs::read(pth).unwrap_or_default())).collect();
@@ -105,6 +126,10 @@ fn clone_case(rep: &Report, idx: usize, sc: &Scenario, verify_header: bool) -> O
         let mut spec = cc::clone_spec(&b, sc, server.as_ref().map(|s| s.url()).unwrap_or_else(|| p(&b.arch.path)));
         if verify_header {
             spec.verify_header = Some(crate::util::hex(&b.arch.model.parsed.header_checksum));
+        }
+        if let (Some(a), false) = (&alt_seed0, spec.seeds.is_empty()) {
+            spec.seeds[0] = a.clone();
+            rep.count(if fifo.is_some() { "clone.first_seed_through_a_named_pipe" } else { "clone.first_seed_through_a_symlink" }, 1);
         }
         let trace = dir.join("strace.out");
         let mut run = Run::new(&dir, "clone", scn::clone_args(&spec));
@@ -118,6 +143,10 @@ fn clone_case(rep: &Report, idx: usize, sc: &Scenario, verify_header: bool) -> O
         }
         let o = proc::run(&run);
         drop(server);
+        let had_fifo = fifo.is_some();
+        if let Some(f) = fifo.take() {
+            f.finish();
+        }
         rep.eval();
         if o.exit == Exit::Timeout {
             rep.inconclusive("watchdog");
@@ -166,6 +195,9 @@ fn clone_case(rep: &Report, idx: usize, sc: &Scenario, verify_header: bool) -> O
         after_in.remove("clone.hooks");
         let mut want_in = before_in.clone();
         want_in.remove("strace.out");
+        if had_fifo {
+            want_in.remove("seed0.fifo"); // removed by the harness' feeder, not by bita
+        }
         if after_in != want_in {
             return Err(format!("files appeared/disappeared next to the inputs: {:?}", after_in.symmetric_difference(&want_in).collect::<Vec<_>>()));
         }
